@@ -1,5 +1,6 @@
 import CogentModel.Json
 import CogentModel.Model.Composable
+import CogentModel.Model.ParallelBook
 import Driver.C14Codec
 open CogentModel
 
@@ -7,6 +8,20 @@ def handle (cmd : String) (j : J) : Except String J :=
   match cmd with
   | "call" => C14Codec.handleCall j
   | "apply" => C14Codec.handleApply j
+  | "chunksize" => do
+    pure (.num (ParallelBook.defaultChunksize (← (← j.get "n").toNat) (← (← j.get "w").toNat)))
+  | "chunks" => do
+    let n ← (← j.get "n").toNat
+    let c ← (← j.get "c").toNat
+    pure (.arr ((ParallelBook.chunks c (List.range n)).map fun ch => .arr (ch.map fun (x : Nat) => .num (x : Int))))
+  | "imap" => do
+    let n ← (← j.get "n").toNat
+    let c ← (← j.get "c").toNat
+    pure (.arr ((ParallelBook.imapResults (fun (x : Nat) => x * x) (List.range n) c).map fun (x : Nat) => .num (x : Int)))
+  | "as_completed" => do
+    let n ← (← j.get "n").toNat
+    let order ← (← j.get "order").toListOf J.toNat
+    pure (.arr ((ParallelBook.asCompleted (fun (x : Nat) => x * x) (List.range n) order).map fun (x : Nat) => .num (x : Int)))
   | _ => throw s!"unknown command {cmd}"
 
 def main : IO Unit := driverLoop handle
